@@ -31,7 +31,10 @@ def calculate(tax_benefit_system, input_data: dict) -> dict:
                 str(result[entity_index]),
             )  # To turn the float32 into a regular float without adding confusing extra decimals. There must be a better way.
         elif variable.value_type == str:
-            entity_result = str(result[entity_index])
+            entity_result = result[entity_index]
+            if isinstance(entity_result, bytes):
+                entity_result = entity_result.decode()
+            entity_result = str(entity_result)
         else:
             entity_result = result.tolist()[entity_index]
         # Don't use dpath.new, because there is a problem with dpath>=2.0
